@@ -3,6 +3,7 @@
 -/
 import Gotree.Model.C13Std
 import Gotree.Lemmas.C13NexTr2
+import Gotree.Lemmas.C13Foreign
 
 namespace Gotree.C13
 open Gotree
@@ -71,6 +72,477 @@ theorem scan_stdTrLines (m : List (String × String)) (ls : List String)
     | cons a b =>
       simp only [List.cons_append, stdTrToks]
       rw [scanGo_word _ h1.1 ',' (by decide), ih', k]
-      simp [flush, sepToks, isWs, stdTrToks]
+      simp [flush, sepToks, isWs]
+
+/-- a TREE command with a rooting comment: name, `=`, `[&U]`, the tree text, the line end -/
+def stdCmdToks (name : String) (btoks : List Tok) : List Tok :=
+  [.kw .tree "tree", classify name, .equal, .openbrack, .ident "&U", .closebrack] ++ btoks ++ [.eol]
+
+def stdCmdsToks (cs : List Cmd) : List Tok := cs.flatMap fun c => stdCmdToks c.name c.btoks
+
+def stdLines (C : NewickCodec) : List (Nat × T) → Txt
+  | [] => []
+  | it :: r => stdTree ++ ((litTree2 ++ natTxt it.1) ++ ' ' :: (stdEq ++ (C.write it.2 ++ '\n' :: stdLines C r)))
+
+theorem scan_stdLines (C : NewickCodec) (its : List (Nat × T))
+    (h : ∀ it ∈ its, ∃ body, C.write it.2 = body ++ [';'] ∧ ∀ c ∈ body, c ≠ '\r') (rest : Txt) :
+    scanGo (stdLines C its ++ rest) none = stdCmdsToks (its.map (cmdOf C)) ++ scanGo rest none := by
+  induction its with
+  | nil => simp [stdCmdsToks, stdLines]
+  | cons it r ih =>
+    obtain ⟨body, hb, hcr⟩ := h it (by simp)
+    obtain ⟨id, t⟩ := it
+    have e : stdLines C ((id, t) :: r) ++ rest =
+        stdTree ++ ((litTree2 ++ natTxt id) ++ ' ' :: (stdEq ++ (body ++ ';' :: ('\n' :: (stdLines C r ++ rest))))) := by
+      simp only [stdLines, hb, List.append_assoc, List.cons_append, List.nil_append]
+    have hw : isWord (litTree2 ++ natTxt id) := by
+      refine ⟨by simp [litTree2], ?_⟩
+      intro c hc
+      have ht : ∀ c ∈ litTree2, isIdent c = true := by decide
+      rcases List.mem_append.1 hc with h | h
+      · exact ht c h
+      · exact (natTxt_word id).2 c h
+    rw [e, scanGo_lit stdTree _ (by decide), scanGo_word _ hw ' ' (by decide), scanGo_lit stdEq _ (by decide),
+      scanGo_append body ';' (by decide) hcr, scanGo_sep '\n' (by decide), ofList_tree_nat,
+      ih (fun x hx => h x (by simp [hx]))]
+    have k1 : scanGo stdTree none = [.kw .tree "tree"] := by decide
+    have k2 : scanGo stdEq none = [.equal, .openbrack, .ident "&U", .closebrack] := by decide
+    rw [k1, k2]
+    simp [stdCmdToks, stdCmdsToks, cmdOf, hb, sepToks, isWs, flush]
+
+theorem scan_stdTaxlabels (ls : List String) (h : ∀ l ∈ ls, tokLabel l) (rest : Txt) :
+    scanGo (stdTaxlabels ++ (stdLabels ls ++ '\n' :: rest)) none =
+      .kw .taxlabels "taxlabels" :: (ls.flatMap (fun l => [.eol, classify l]) ++ .eol :: scanGo rest none) := by
+  have hw : isWord stdTaxlabels := ⟨by decide, by decide⟩
+  have hc : classify (String.ofList stdTaxlabels) = .kw .taxlabels "taxlabels" := by decide
+  obtain ⟨X, hX⟩ : ∃ X, stdLabels ls ++ '\n' :: rest = '\n' :: X := by
+    cases ls with
+    | nil => exact ⟨rest, rfl⟩
+    | cons a b => exact ⟨_, rfl⟩
+  rw [hX, scanGo_word' _ hw '\n' (by decide), ← hX, hc, scan_stdLabels ls h]
+
+theorem scan_stdTranslate (m : List (String × String)) (ls : List String)
+    (h : ∀ l ∈ ls, tokLabel l ∧ tokLabel (idxOf m l)) (rest : Txt) :
+    scanGo (stdTranslate ++ (stdTrLines m ls ++ '\n' :: rest)) none =
+      .kw .translate "translate" :: (stdTrToks m ls ++ .eol :: scanGo rest none) := by
+  have hw : isWord stdTranslate := ⟨by decide, by decide⟩
+  have hc : classify (String.ofList stdTranslate) = .kw .translate "translate" := by decide
+  obtain ⟨X, hX⟩ : ∃ X, stdTrLines m ls ++ '\n' :: rest = '\n' :: X := by
+    cases ls with
+    | nil => exact ⟨rest, rfl⟩
+    | cons a b => rw [stdTrLines_eq]; exact ⟨_, rfl⟩
+  rw [hX, scanGo_word' _ hw '\n' (by decide), ← hX, hc, scan_stdTrLines m ls h]
+
+def stdTaxaToks (nS : String) (labels : List String) : List Tok :=
+  [.eol, .kw .dimensions "dimensions", .kw .ntax "ntax", .equal, .numeric nS, .endcmd, .eol, .kw .taxlabels "taxlabels"] ++
+  labels.flatMap (fun l => [.eol, classify l]) ++ [.eol, .endcmd, .eol, .kw .end_ "end", .endcmd]
+
+/-- the tokens of the standard-form document after `#NEXUS` -/
+def stdDocToks (nS : String) (labels : List String) (m : List (String × String)) (cs : List Cmd) : List Tok :=
+  [.eol, .kw .begin_ "begin", .kw .taxa "taxa", .endcmd] ++ stdTaxaToks nS labels ++
+  [.eol, .eol, .kw .begin_ "begin", .kw .trees "trees", .endcmd, .eol, .kw .translate "translate"] ++
+  stdTrToks m labels ++ [.eol, .endcmd, .eol] ++ stdCmdsToks cs ++ [.kw .end_ "end", .endcmd, .eol]
+
+/-- the document with the tree lines given as a list of numbered written trees -/
+def stdDoc (C : NewickCodec) (labels : List String) (m : List (String × String)) (its : List (Nat × T)) : Txt :=
+  stdA ++ (natTxt labels.length ++ ';' :: (stdB ++ (stdTaxlabels ++ (stdLabels labels ++ '\n' :: ';' :: (stdC ++
+  (stdTranslate ++ (stdTrLines m labels ++ '\n' :: ';' :: (stdD ++ (stdLines C its ++ stdE)))))))))
+
+theorem scan_stdDoc (C : NewickCodec) (labels : List String) (m : List (String × String)) (its : List (Nat × T))
+    (hn : labels.length ≤ 9223372036854775807)
+    (hl : ∀ l ∈ labels, tokLabel l ∧ tokLabel (idxOf m l))
+    (h : ∀ it ∈ its, ∃ body, C.write it.2 = body ++ [';'] ∧ ∀ c ∈ body, c ≠ '\r') :
+    scan (stdDoc C labels m its) =
+      .kw .nexus "#NEXUS" :: stdDocToks (toString labels.length) labels m (its.map (cmdOf C)) := by
+  unfold scan stdDoc
+  rw [scanGo_lit stdA _ (by decide), scanGo_word _ (natTxt_word _) ';' (by decide), classify_natTxt _ hn,
+    scanGo_lit stdB _ (by decide), scan_stdTaxlabels _ (fun l hl' => (hl l hl').1), scanGo_sep ';' (by decide),
+    scanGo_lit stdC _ (by decide), scan_stdTranslate _ _ hl, scanGo_sep ';' (by decide),
+    scanGo_lit stdD _ (by decide), scan_stdLines C its h]
+  have k1 : scanGo stdA none = [.kw .nexus "#NEXUS", .eol, .kw .begin_ "begin", .kw .taxa "taxa", .endcmd, .eol,
+      .kw .dimensions "dimensions", .kw .ntax "ntax", .equal] := by decide
+  have k2 : scanGo stdB none = [.eol] := by decide
+  have k3 : scanGo stdC none = [.eol, .kw .end_ "end", .endcmd, .eol, .eol, .kw .begin_ "begin", .kw .trees "trees", .endcmd, .eol] := by decide
+  have k4 : scanGo stdD none = [.eol] := by decide
+  have k5 : scanGo stdE none = [.kw .end_ "end", .endcmd, .eol] := by decide
+  rw [k1, k2, k3, k4, k5]
+  simp [stdDocToks, stdTaxaToks, sepToks, isWs, flush]
+
+/- ## parsing -/
+
+theorem classify_cases' (s : String) (h : keywordOf s = none) : classify s = .numeric s ∨ classify s = .ident s := by
+  unfold classify
+  split
+  · exact Or.inl rfl
+  · simp [h]
+
+theorem parseTaxlabels_std (ls : List String) (h : ∀ l ∈ ls, keywordOf l = none) (acc : List String) (rest : List Tok) :
+    parseTaxlabels (ls.flatMap (fun l => [.eol, classify l]) ++ .eol :: .endcmd :: rest) acc =
+      .ok (ls.foldl insertLabel acc, rest) := by
+  induction ls generalizing acc with
+  | nil => simp [parseTaxlabels]
+  | cons l ls ih =>
+    have ih' := fun acc => ih (fun x hx => h x (by simp [hx])) acc
+    simp only [List.flatMap_cons, List.cons_append, List.nil_append, List.foldl_cons]
+    rcases classify_cases' l (h l (by simp)) with e | e <;>
+      (rw [e]; simp only [parseTaxlabels]; exact ih' _)
+
+theorem parseTaxa_std (f : Nat) (nS : String) (labels : List String) (h : ∀ l ∈ labels, keywordOf l = none)
+    (rest : List Tok) :
+    parseTaxa (f + 6) (stdTaxaToks nS labels ++ rest) (-1) [] =
+      .ok ((intVal nS, labels.foldl insertLabel []), rest) := by
+  simp only [stdTaxaToks, List.cons_append, List.nil_append, List.append_assoc]
+  simp only [parseTaxa, parseDims]
+  rw [parseTaxlabels_std labels h]
+
+theorem parseTransl_std (m : List (String × String)) (ls : List String)
+    (h : ∀ l ∈ ls, keywordOf l = none ∧ keywordOf (idxOf m l) = none) (acc : List (String × String)) (rest : List Tok) :
+    parseTransl (stdTrToks m ls ++ .eol :: .endcmd :: rest) acc = .ok (tableOf m ls acc, rest) := by
+  induction ls generalizing acc with
+  | nil => simp [parseTransl, tableOf, stdTrToks]
+  | cons l ls ih =>
+    obtain ⟨h1, h2⟩ := h l (by simp)
+    have ih' := ih (fun x hx => h x (by simp [hx]))
+    cases ls with
+    | nil =>
+      simp only [stdTrToks, List.cons_append, List.nil_append, tableOf, List.foldl_cons, List.foldl_nil]
+      rcases classify_cases' _ h2 with e2 | e2 <;> rcases classify_cases' _ h1 with e1 | e1 <;>
+        (rw [e1, e2]; simp [parseTransl, Tok.name?])
+    | cons l' ls' =>
+      simp only [stdTrToks, List.cons_append, List.nil_append, tableOf, List.foldl_cons] at ih' ⊢
+      rcases classify_cases' _ h2 with e2 | e2 <;> rcases classify_cases' _ h1 with e1 | e1 <;>
+        (rw [e1, e2]; simp only [parseTransl, Tok.name?]; exact ih' _)
+
+theorem parseTreeStr_head (l : List Tok) (acc s : Txt) (r : List Tok) (h : parseTreeStr l acc = .ok (s, r)) :
+    dropEol l = l := by
+  cases l with
+  | nil => rfl
+  | cons t r' => cases t <;> first | rfl | (simp [parseTreeStr] at h)
+
+theorem parseTrees_stdcmd (f : Nat) (name : String) (btoks : List Tok) (body : Txt) (rest : List Tok) (a : TreesAcc)
+    (hn : keywordOf name = none) (hb : parseTreeStr btoks [] = .ok (body, [])) :
+    parseTrees (f + 2) (stdCmdToks name btoks ++ rest) a =
+      parseTrees f rest { a with trees := a.trees ++ [(name, body)] } := by
+  have hp := parseTreeStr_append btoks [] body (.eol :: rest) hb
+  have hd : dropEol (btoks ++ .eol :: rest) = btoks ++ .eol :: rest :=
+    parseTreeStr_head _ _ _ _ hp
+  have hs : skipComment (.ident "&U" :: .closebrack :: (btoks ++ .eol :: rest)) = some (btoks ++ .eol :: rest) :=
+    skipComment_spec [.ident "&U"] _ (by simp)
+  simp only [stdCmdToks, List.cons_append, List.nil_append, List.append_assoc]
+  rw [parseTrees]
+  simp only [classify_name name hn, hs, Option.map_some, hd, hp]
+  rw [parseTrees]
+
+theorem parseTrees_stdcmds (cs : List Cmd) (h : ∀ c ∈ cs, c.ok) (f : Nat) (rest : List Tok) (a : TreesAcc) :
+    parseTrees (f + 2 * cs.length) (stdCmdsToks cs ++ rest) a =
+      parseTrees f rest { a with trees := a.trees ++ cs.map fun c => (c.name, c.body) } := by
+  induction cs generalizing a with
+  | nil => simp [stdCmdsToks]
+  | cons c cs ih =>
+    obtain ⟨h1, h2, _⟩ := h c (by simp)
+    have e : f + 2 * (c :: cs).length = (f + 2 * cs.length) + 2 := by simp; omega
+    rw [e]
+    simp only [stdCmdsToks, List.flatMap_cons, List.append_assoc]
+    rw [parseTrees_stdcmd _ c.name c.btoks c.body _ a h1 h2]
+    have := ih (fun x hx => h x (by simp [hx])) { a with trees := a.trees ++ [(c.name, c.body)] }
+    simp only [stdCmdsToks] at this
+    rw [this]
+    simp
+
+theorem parseTrees_std (m : List (String × String)) (labels : List String)
+    (hl : ∀ l ∈ labels, keywordOf l = none ∧ keywordOf (idxOf m l) = none)
+    (cs : List Cmd) (h : ∀ c ∈ cs, c.ok) (f : Nat) (hf : 2 * cs.length + 4 ≤ f)
+    (rest : List Tok) (a : TreesAcc) :
+    parseTrees f (.eol :: .kw .translate "translate" :: (stdTrToks m labels ++
+        .eol :: .endcmd :: .eol :: (stdCmdsToks cs ++ .kw .end_ "end" :: .endcmd :: rest))) a =
+      .ok ({ trees := a.trees ++ cs.map fun c => (c.name, c.body), transl := some (tableOf m labels []) }, rest) := by
+  obtain ⟨g, rfl⟩ : ∃ g, f = (((g + 1 + 2 * cs.length) + 1) + 1) + 1 := ⟨f - (2 * cs.length + 4), by omega⟩
+  rw [parseTrees, parseTrees]
+  rw [parseTransl_std m labels hl]
+  simp only []
+  rw [parseTrees]
+  rw [parseTrees_stdcmds cs h (g + 1)]
+  rw [parseTrees]
+
+theorem parseLoop_stdDoc (nS : String) (labels : List String) (m : List (String × String)) (cs : List Cmd)
+    (hl : ∀ l ∈ labels, keywordOf l = none ∧ keywordOf (idxOf m l) = none) (hc : ∀ c ∈ cs, c.ok)
+    (f : Nat) (hf : 2 * cs.length + 13 ≤ f) :
+    parseLoop f (stdDocToks nS labels m cs) {} =
+      .ok { ntax := intVal nS, taxlabels := some (labels.foldl insertLabel []),
+            trees := some (cs.map fun c => (c.name, c.body)), transl := some (tableOf m labels []) } := by
+  obtain ⟨g, rfl⟩ : ∃ g, f = g + 2 * cs.length + 13 := ⟨f - (2 * cs.length + 13), by omega⟩
+  simp only [stdDocToks, List.cons_append, List.nil_append, List.append_assoc]
+  rw [parseLoop, parseLoop]
+  simp only []
+  have e1 : g + 2 * cs.length + 11 = (g + 2 * cs.length + 5) + 6 := by omega
+  rw [e1, parseTaxa_std _ nS labels (fun l h => (hl l h).1)]
+  simp only []
+  rw [parseLoop, parseLoop, parseLoop]
+  simp only []
+  rw [parseTrees_std m labels hl cs hc _ (by omega)]
+  simp only [List.nil_append]
+  rw [parseLoop, parseLoop]
+  simp
+
+/- ## one tree, for a map numbered from any `k` (copy of `tr_tree_ok`, which is stated for `k = 0`) -/
+
+theorem tr_tree_ok_from (k : Nat) (tips0 slice : List String) (t : T)
+    (h0 : tips0.Nodup) (h0ne : ∀ x ∈ tips0, x ≠ "")
+    (hsl : slice.Nodup) (hmem : ∀ x, x ∈ slice ↔ x ∈ tips0)
+    (htm : ∀ x, x ∈ t.tipNames ↔ x ∈ tips0) (htn : t.tipNames.Nodup)
+    (hn : namesOK t = true) :
+    wOf (mapFrom k tips0) t = renameT (mapFrom k tips0) t ∧
+    renameChecked (tableOf (mapFrom k tips0) slice []) (renameT (mapFrom k tips0) t) = some t := by
+  -- notation
+  have hM : ∀ x, x ∈ tips0 → ∃ j : Nat, lookup (mapFrom k tips0) x = some (toString j) := by
+    intro x hx
+    obtain ⟨v, hv⟩ := lookup_mapFrom_mem k tips0 x hx
+    obtain ⟨j, _, hj⟩ := lookup_mapFrom_range k tips0 x v hv
+    exact ⟨j, by rw [hv, hj]⟩
+  have hMout : ∀ x, x ∉ tips0 → lookup (mapFrom k tips0) x = none := by
+    intro x hx
+    apply (lookup_none_iff _ x).2
+    rw [keys_mapFrom]; exact hx
+  have fin : ∀ x, x ∈ tips0 → ∃ j : Nat, renameName (mapFrom k tips0) x = toString j ∧ idxOf (mapFrom k tips0) x = toString j := by
+    intro x hx
+    obtain ⟨j, hj⟩ := hM x hx
+    have hne : (x == "") = false := by simpa using h0ne x hx
+    exact ⟨j, by simp [renameName, hne, hj], by simp [idxOf, hj]⟩
+  have fout : ∀ x, x ∉ tips0 → renameName (mapFrom k tips0) x = x := by
+    intro x hx
+    simp only [renameName, hMout x hx]
+    split <;> rfl
+  have finj : ∀ a ∈ tips0, ∀ b ∈ tips0, renameName (mapFrom k tips0) a = renameName (mapFrom k tips0) b → a = b := by
+    intro a ha b hb he
+    obtain ⟨ja, hja⟩ := hM a ha
+    obtain ⟨jb, hjb⟩ := hM b hb
+    have ea : renameName (mapFrom k tips0) a = toString ja := by
+      have hne : (a == "") = false := by simpa using h0ne a ha
+      simp [renameName, hne, hja]
+    have eb : renameName (mapFrom k tips0) b = toString jb := by
+      have hne : (b == "") = false := by simpa using h0ne b hb
+      simp [renameName, hne, hjb]
+    rw [ea, eb] at he
+    rw [he] at hja
+    exact lookup_mapFrom_inj k tips0 h0 a b _ hja hjb
+  have idxinj : ∀ a ∈ slice, ∀ b ∈ slice, idxOf (mapFrom k tips0) a = idxOf (mapFrom k tips0) b → a = b := by
+    intro a ha b hb he
+    obtain ⟨ja, ha1, ha2⟩ := fin a ((hmem a).1 ha)
+    obtain ⟨jb, hb1, hb2⟩ := fin b ((hmem b).1 hb)
+    exact finj a ((hmem a).1 ha) b ((hmem b).1 hb) (by rw [ha1, hb1, ← ha2, ← hb2, he])
+  simp only [namesOK, innerNamesDistinct, nonTipNamesNotNumeral, Bool.and_eq_true, Bool.not_eq_true', List.all_eq_true,
+    Bool.or_eq_true, beq_iff_eq] at hn
+  obtain ⟨hdup, hcls⟩ := hn
+  -- classification of the names of t
+  have hcl : ∀ y ∈ allNames t, y = "" ∨ y ∈ tips0 ∨ (y ∉ tips0 ∧ isNumeral y = false) := by
+    intro y hy
+    rcases hcls y hy with (h | h) | h
+    · exact Or.inl h
+    · exact Or.inr (Or.inl ((htm y).1 (by simpa using h)))
+    · by_cases hin : y ∈ tips0
+      · exact Or.inr (Or.inl hin)
+      · exact Or.inr (Or.inr ⟨hin, by simpa using h⟩)
+  -- (i) the tree is written renamed
+  have h1 : renameChecked (mapFrom k tips0) t = some (renameT (mapFrom k tips0) t) := by
+    have hd2 : hasDup (renameT (mapFrom k tips0) t).tipNames = false := by
+      rw [tipNames_renameT, hasDup_false_iff]
+      exact nodup_map_inj_on _ _ htn (fun a ha b hb => finj a ((htm a).1 ha) b ((htm b).1 hb))
+    simp [renameChecked, hdup, hd2]
+  refine ⟨by simp [wOf, hdup], ?_⟩
+  -- (ii) read back through the table
+  have hback : ∀ y ∈ allNames t,
+      renameName (tableOf (mapFrom k tips0) slice []) (renameName (mapFrom k tips0) y) = y := by
+    intro y hy
+    rcases hcl y hy with h | h | ⟨h, hnum⟩
+    · subst h; simp [renameName]
+    · obtain ⟨j, e1, e2⟩ := fin y h
+      rw [e1, ← e2]
+      have hl := tableOf_mem (mapFrom k tips0) slice [] y hsl idxinj ((hmem y).2 h)
+      have hne : (idxOf (mapFrom k tips0) y == "") = false := by
+        rw [e2]
+        have := isNumeral_natStr j
+        simp only [isNumeral, Bool.and_eq_true, bne_iff_ne, ne_eq] at this
+        simpa using this.1
+      simp [renameName, hne, hl]
+    · rw [fout y h]
+      have hl := tableOf_other (mapFrom k tips0) slice [] y (by
+        intro l hl' he
+        obtain ⟨j, _, e2⟩ := fin l ((hmem l).1 hl')
+        rw [e2] at he
+        rw [← he, isNumeral_natStr] at hnum
+        cases hnum)
+      simp only [renameName, hl, lookup]
+      split <;> rfl
+  have hb := renameT_back _ _ t hback
+  have hnames : hasDup ((allNames (renameT (mapFrom k tips0) t)).filter (· != "")) = false := by
+    rw [allNames_renameT, filter_map_ne _ _ (by
+      intro y hy
+      rcases hcl y hy with h | h | ⟨h, _⟩
+      · subst h; simp [renameName]
+      · obtain ⟨j, e1, _⟩ := fin y h
+        rw [e1]
+        have := isNumeral_natStr j
+        simp only [isNumeral, Bool.and_eq_true, bne_iff_ne, ne_eq] at this
+        exact ⟨fun e => absurd e this.1, fun e => absurd e (h0ne y h)⟩
+      · rw [fout y h]), hasDup_false_iff]
+    apply nodup_map_inj_on _ _ ((hasDup_false_iff _).1 hdup)
+    intro a ha b hb' he
+    have ha' := (List.mem_filter.1 ha)
+    have hb'' := (List.mem_filter.1 hb')
+    have hane : a ≠ "" := by simpa using ha'.2
+    have hbne : b ≠ "" := by simpa using hb''.2
+    rcases hcl a ha'.1 with h | h | ⟨h, hna⟩
+    · exact absurd h hane
+    · rcases hcl b hb''.1 with h' | h' | ⟨h', hnb⟩
+      · exact absurd h' hbne
+      · exact finj a h b h' he
+      · obtain ⟨j, e1, _⟩ := fin a h
+        rw [e1, fout b h'] at he
+        rw [← he, isNumeral_natStr] at hnb
+        cases hnb
+    · rcases hcl b hb''.1 with h' | h' | ⟨h', _⟩
+      · exact absurd h' hbne
+      · obtain ⟨j, e1, _⟩ := fin b h'
+        rw [e1, fout a h] at he
+        rw [he, isNumeral_natStr] at hna
+        cases hna
+      · rw [fout a h, fout b h'] at he
+        exact he
+  have htips : hasDup t.tipNames = false := (hasDup_false_iff _).2 htn
+  simp [renameChecked, hnames, hb, htips]
+
+
+/- ## the whole document -/
+
+theorem stdTreeLines_eq (C : NewickCodec) (m : List (String × String)) (i : Nat) (ts : List T) :
+    stdTreeLines C m i ts = stdLines C ((enumFrom i ts).map fun it => (it.1, renameT m it.2)) := by
+  induction ts generalizing i with
+  | nil => rfl
+  | cons t r ih => simp only [stdTreeLines, enumFrom, List.map_cons, stdLines, ih]
+
+theorem writeNexusStd_eq (C : NewickCodec) (labels : List String) (ts : List T) :
+    writeNexusStd C labels ts =
+      stdDoc C labels (mapFrom 1 labels) ((enumFrom 1 ts).map fun it => (it.1, renameT (mapFrom 1 labels) it.2)) := by
+  unfold writeNexusStd stdDoc
+  rw [stdTreeLines_eq, stdMap_eq]
+
+theorem stdTrToks_noCR (m : List (String × String)) (ls : List String) : Tok.loneCR ∉ stdTrToks m ls := by
+  induction ls with
+  | nil => simp [stdTrToks]
+  | cons l r ih =>
+    cases r with
+    | nil =>
+      simp only [stdTrToks, List.mem_cons, List.not_mem_nil, or_false, reduceCtorEq, false_or, not_or]
+      exact ⟨fun h => classify_ne_loneCR _ h.symm, fun h => classify_ne_loneCR _ h.symm⟩
+    | cons a b =>
+      simp only [stdTrToks, List.mem_cons, reduceCtorEq, false_or, not_or] at ih ⊢
+      exact ⟨fun h => classify_ne_loneCR _ h.symm, fun h => classify_ne_loneCR _ h.symm, ih⟩
+
+theorem snd_mem_of_enumFrom (i : Nat) (l : List T) (it : Nat × T) (h : it ∈ enumFrom i l) : it.2 ∈ l := by
+  induction l generalizing i with
+  | nil => simp [enumFrom] at h
+  | cons t r ih =>
+    simp only [enumFrom, List.mem_cons] at h
+    rcases h with h | h
+    · simp [h]
+    · exact List.mem_cons_of_mem _ (ih (i + 1) h)
+
+theorem stdCmdsToks_length (cs : List Cmd) : 2 * cs.length ≤ (stdCmdsToks cs).length := by
+  induction cs with
+  | nil => simp [stdCmdsToks]
+  | cons c cs ih =>
+    simp only [stdCmdsToks, List.flatMap_cons, List.length_append, List.length_cons, stdCmdToks] at ih ⊢
+    omega
+
+/-- gotree's Nexus reader on a standard-form document: every tree comes back -/
+theorem parse_std (C : NewickCodec) (L : NewickLaws C) (labels : List String) (ts : List T)
+    (hn : labels.length ≤ 9223372036854775807)
+    (hlab : ∀ l ∈ labels, labelOK l = true)
+    (hnd : hasDup labels = false)
+    (hset : ∀ t ∈ ts, sameSet t.tipNames labels = true)
+    (htnd : ∀ t ∈ ts, hasDup t.tipNames = false)
+    (hnames : ∀ t ∈ ts, namesOK t = true)
+    (hw : ∀ t ∈ ts, L.wf (renameT (stdMap 1 labels) t) = true)
+    (hs : ∀ t ∈ ts, treeTextOK (C.write (renameT (stdMap 1 labels) t)) = true) :
+    ∃ d, Nex.parse C (writeNexusStd C labels ts) = .ok d ∧ recsAre ts (recsOfTrees (d.map (·.2)) 0) 0 = true := by
+  rw [stdMap_eq] at hw hs
+  have hN : labels.Nodup := (hasDup_false_iff _).1 hnd
+  have hne : ∀ x ∈ labels, x ≠ "" := by
+    intro x hx he
+    have := hlab x hx
+    rw [he] at this
+    simp [labelOK] at this
+  have hmem : ∀ t ∈ ts, ∀ x, x ∈ t.tipNames ↔ x ∈ labels := by
+    intro t ht x
+    have := hset t ht
+    simp only [sameSet, Bool.and_eq_true, List.all_eq_true, List.contains_iff_mem] at this
+    exact ⟨this.1 x, this.2 x⟩
+  have hl : ∀ l ∈ labels, tokLabel l ∧ tokLabel (idxOf (mapFrom 1 labels) l) := by
+    intro l hl'
+    refine ⟨labelOK_tokLabel l (hlab l hl'), ?_⟩
+    obtain ⟨v, hv⟩ := lookup_mapFrom_mem 1 labels l hl'
+    obtain ⟨j, _, hj⟩ := lookup_mapFrom_range 1 labels l v hv
+    simp only [idxOf, hv, hj]
+    exact labelOK_tokLabel _ (labelOK_natStr j)
+  have hper : ∀ t ∈ ts, renameChecked (tableOf (mapFrom 1 labels) labels []) (renameT (mapFrom 1 labels) t) = some t ∧
+      okTaxa labels t = true := by
+    intro t ht
+    have htn : t.tipNames.Nodup := (hasDup_false_iff _).1 (htnd t ht)
+    refine ⟨(tr_tree_ok_from 1 labels labels t hN hne hN (fun _ => Iff.rfl) (hmem t ht) htn (hnames t ht)).2, ?_⟩
+    have hp : t.tipNames.Perm labels := (List.perm_ext_iff_of_nodup htn hN).2 (hmem t ht)
+    simp only [okTaxa, Bool.and_eq_true, List.all_eq_true, List.contains_iff_mem, beq_iff_eq]
+    exact ⟨fun x hx => (hmem t ht x).1 hx, hp.length_eq⟩
+  have hb := backOK_of (tableOf (mapFrom 1 labels) labels []) labels (renameT (mapFrom 1 labels)) ts 1 hper
+  have hwW : ∀ w ∈ (enumFrom 1 ts).map (fun it => (it.1, renameT (mapFrom 1 labels) it.2)), L.wf w.2 = true := by
+    intro w hw'
+    obtain ⟨it, hit, rfl⟩ := List.mem_map.1 hw'
+    exact hw it.2 (snd_mem_of_enumFrom 1 _ it hit)
+  have hsW : ∀ w ∈ (enumFrom 1 ts).map (fun it => (it.1, renameT (mapFrom 1 labels) it.2)),
+      treeTextOK (C.write w.2) = true := by
+    intro w hw'
+    obtain ⟨it, hit, rfl⟩ := List.mem_map.1 hw'
+    exact hs it.2 (snd_mem_of_enumFrom 1 _ it hit)
+  generalize hWdef : (enumFrom 1 ts).map (fun it => (it.1, renameT (mapFrom 1 labels) it.2)) = W at hb hwW hsW
+  have hbody : ∀ it ∈ W, ∃ body, C.write it.2 = body ++ [';'] ∧ ∀ c ∈ body, c ≠ '\r' := by
+    intro it hit
+    obtain ⟨body, hb', hc⟩ := L.write_shape it.2 (hwW it hit)
+    exact ⟨body, hb', fun c hc' => (hc c hc').2.1⟩
+  have hcs : ∀ c ∈ W.map (cmdOf C), c.ok := by
+    intro c hc
+    obtain ⟨it, hit, rfl⟩ := List.mem_map.1 hc
+    exact cmdOf_ok C it (hsW it hit)
+  have hkw : ∀ l ∈ labels, keywordOf l = none ∧ keywordOf (idxOf (mapFrom 1 labels) l) = none :=
+    fun l hl' => ⟨(hl l hl').1.2, (hl l hl').2.2⟩
+  have hscan := scan_stdDoc C labels (mapFrom 1 labels) W hn hl hbody
+  have hnocr : (scan (stdDoc C labels (mapFrom 1 labels) W)).contains .loneCR = false := by
+    rw [hscan]
+    rw [List.contains_eq_mem, decide_eq_false_iff_not]
+    intro hm
+    simp only [stdDocToks, stdTaxaToks, List.mem_cons, List.mem_append, List.mem_flatMap,
+      List.not_mem_nil, reduceCtorEq, false_or, or_false] at hm
+    rcases hm with ((⟨l, _, h⟩ | h) | hm)
+    · exact classify_ne_loneCR l h.symm
+    · exact stdTrToks_noCR _ _ h
+    · simp only [stdCmdsToks, List.mem_flatMap] at hm
+      obtain ⟨c, hc, hm⟩ := hm
+      have hok := hcs c hc
+      simp only [stdCmdToks, List.mem_append, List.mem_cons, List.not_mem_nil, or_false, reduceCtorEq, false_or] at hm
+      rcases hm with h | h
+      · exact classify_ne_loneCR _ h.symm
+      · exact parseTreeStr_noCR _ _ _ _ hok.2.1 (by simp) h
+  have hfold : labels.foldl insertLabel [] = labels := by
+    rw [foldl_insertLabel _ [] (by simpa using hnd)]; simp
+  obtain ⟨d, hd, hr⟩ := buildTrees_tr C L _ _ W ts 0 hwW hb
+  refine ⟨d, ?_, hr⟩
+  rw [writeNexusStd_eq, hWdef]
+  unfold Nex.parse
+  rw [hscan] at hnocr
+  simp only [hscan, hnocr, Bool.false_eq_true, if_false]
+  rw [parseLoop_stdDoc _ _ _ _ hkw hcs _ (by
+    have := stdCmdsToks_length (W.map (cmdOf C))
+    simp only [stdDocToks, stdTaxaToks, List.length_append, List.length_cons, List.length_nil, List.length_map] at this ⊢
+    omega)]
+  simp only [intVal_natStr, hfold, Option.getD_some]
+  simp only [bne_self_eq_false, Bool.and_false, Bool.false_eq_true, if_false, hd]
 
 end Gotree.C13
